@@ -299,8 +299,8 @@ func c18ApplyBatch(r *verifkit.Run, variant string, m *c18Machine, entries []c18
 type c18Ref struct {
 	entries []c18Entry
 	results []fsm.ApplyResult
-	states  [][]byte              // canonical state after entry i
-	snaps   []state.ClusterState  // state after entry i
+	states  [][]byte             // canonical state after entry i
+	snaps   []state.ClusterState // state after entry i
 	flav    map[string]int
 }
 
@@ -455,7 +455,7 @@ func TestVerifC18(t *testing.T) {
 	r.Assume("Commands reach the FSM as command.Decode(command.Encode(cmd)), as in controller/raft.applyScheduler; undecodable payloads never reach the FSM (the scheduler fails before ApplyBatch) and are only checked for panic-freedom of command.Decode.")
 
 	base := t.TempDir()
-	nCases := r.N(150, 2400)
+	nCases := r.N(130, 1700)
 	winMax := r.N(6, 8)
 	for i := 0; i < nCases; i++ {
 		if r.Skip(i) {
